@@ -207,7 +207,7 @@ theorem trusted_iff {s : St} {d : Key} :
 /-- I2/I3 of the repaired design: a clean edge to a callee whose recorded firewall frontier is
     settled has a current observation, and the callee is `Solid` (hence its value is the
     from-scratch one) -/
-theorem Inv.clean_trusted {p : Program} {s : St} (inv : Inv p s) (sh : Shape p) {x : Key} {n : Node}
+theorem Inv.clean_trusted {p : Program} {s : St} (inv : Inv p s) {x : Key} {n : Node}
     (hx : s.nodes x = some n) {y : Key} {o : Val} (hm : (y, o) ∈ n.deps)
     (hcl : s.dirty x y = false) (ht : trusted s y = true) :
     ∃ ny, s.nodes y = some ny ∧ ny.value = o ∧ (ny.kind ≠ .firewall → ny.tfc = n.seen y) ∧ Solid s y := by
@@ -221,7 +221,7 @@ theorem Inv.clean_trusted {p : Program} {s : St} (inv : Inv p s) (sh : Shape p) 
   | external => exact Solid.leaf hny (hleaf (Or.inr hk)).1 (fun h => by rw [hk] at h; cases h)
   | projection =>
     rw [hk] at hall
-    exact inv.proj_solid sh y ny hny hk (fun f hf => hall f (by simpa [contrib] using hf))
+    exact inv.proj_solid y ny hny hk (fun f hf => hall f (by simpa [contrib] using hf))
   | firewall =>
     rw [hk] at hall
     obtain ⟨nf, hnf, hver, _⟩ := settledFw_iff.1 (hall y (by simp [contrib]))
@@ -229,7 +229,7 @@ theorem Inv.clean_trusted {p : Program} {s : St} (inv : Inv p s) (sh : Shape p) 
     exact inv.solid y ny hny hver
   | normal =>
     rw [hk] at hall
-    exact (hnorm.2 hk).solid_of_settled inv sh ny hny hk (fun f hf => hall f (by simpa [contrib] using hf))
+    exact (hnorm.2 hk).solid_of_settled inv ny hny hk (fun f hf => hall f (by simpa [contrib] using hf))
 
 -- ------------------------------------------------------------------ elementary updates
 
@@ -301,7 +301,7 @@ theorem Inv.setSame {p : Program} {s : St} (inv : Inv p s) {k : Key} {n n' : Nod
       (∀ d o, (d, o) ∈ n.deps → Solid s d)))
     (hpb : n'.pendingBP = n.pendingBP ∨ (n'.pendingBP = false ∧
       (∀ z nz o, s.nodes z = some nz → nz.kind = .projection → (k, o) ∈ nz.deps → n.value = o) ∧
-      (StaticProj p → ∀ z nz o, s.nodes z = some nz → nz.kind = .projection → (k, o) ∈ nz.deps →
+      (∀ z nz o, s.nodes z = some nz → nz.kind = .projection → IsStaticKey p z → (k, o) ∈ nz.deps →
         nz.pendingBP = false))) :
     Inv p (setNode s k n') := by
   have hpm : n'.pendingBP = true → n.pendingBP = true := by
@@ -342,26 +342,21 @@ theorem Inv.setSame {p : Program} {s : St} (inv : Inv p s) {k : Key} {n n' : Nod
   · intro x nx hx
     obtain ⟨nx0, h0, _, b, c, _, e, _⟩ := nodeAt x nx hx
     rw [e, b, c]; exact inv.kind x nx0 h0
-  · intro pa x nx hx hkx d o nd hm hnd
-    obtain ⟨nx0, h0, _, b, _, _, e, _⟩ := nodeAt x nx hx
-    obtain ⟨nd0, hnd0, _, _, _, _, e', _⟩ := nodeAt d nd hnd
-    rw [b] at hm; rw [e] at hkx; rw [e']
-    exact inv.pjFw pa x nx0 h0 hkx d o nd0 hm hnd0
   · intro x nx hx hkx d o nd hm hnd
     obtain ⟨nx0, h0, _, b, _, _, e, _⟩ := nodeAt x nx hx
     obtain ⟨nd0, hnd0, _, _, _, _, e', _⟩ := nodeAt d nd hnd
     rw [b] at hm; rw [e] at hkx; rw [e']
     exact inv.pjKinds x nx0 h0 hkx d o nd0 hm hnd0
-  · intro sp x nx dx ks hx hpx hkx hst'
+  · intro x nx dx ks hx hpx hkx hst'
     obtain ⟨nx0, h0, _, b, c, _, e, _⟩ := nodeAt x nx hx
     rw [b, c, frontEq]; rw [e] at hkx
-    exact inv.pjStat sp x nx0 dx ks h0 hpx hkx hst'
-  · intro sp x nx g o ng hx hm hg hkg
+    exact inv.pjStat x nx0 dx ks h0 hpx hkx hst'
+  · intro x nx g o ng hx hm hg hkg hsg
     obtain ⟨nx0, h0, _, b, _, dd, _⟩ := nodeAt x nx hx
     obtain ⟨ng0, hg0, _, _, c', _, e', _⟩ := nodeAt g ng hg
     rw [b] at hm; rw [e'] at hkg
-    rw [dd, c']; exact inv.pjSeen sp x nx0 g o ng0 h0 hm hg0 hkg
-  · intro sp g ng hg hkg hpg
+    rw [dd, c']; exact inv.pjSeen x nx0 g o ng0 h0 hm hg0 hkg hsg
+  · intro g ng hg hkg hsg hpg
     obtain ⟨ng0, hg0, _, b, _, _, e, hne, he⟩ := nodeAt g ng hg
     rw [e] at hkg
     have hpg0 : ng0.pendingBP = true := by
@@ -369,14 +364,14 @@ theorem Inv.setSame {p : Program} {s : St} (inv : Inv p s) {k : Key} {n n' : Nod
       · obtain ⟨e1, e2⟩ := he eg
         subst e1; subst e2; exact hpm hpg
       · rw [hne eg] at hpg; exact hpg
-    obtain ⟨c, o, hm, hpc⟩ := inv.pjCause sp g ng0 hg0 hkg hpg0
+    obtain ⟨c, o, hm, hpc⟩ := inv.pjCause g ng0 hg0 hkg hsg hpg0
     refine ⟨c, o, by rw [b]; exact hm, ?_⟩
     by_cases ec : c = k
     · subst ec
       rcases hpb with e' | ⟨_, _, hall⟩
       · simp only [hasPending, setNode, if_true, e']
         simpa [hasPending, hk] using hpc
-      · have := hall sp g ng0 o hg0 hkg hm
+      · have := hall g ng0 o hg0 hkg hsg hm
         rw [hpg0] at this; cases this
     · simpa [hasPending, setNode, ec] using hpc
   · intro x nx hx hkx d o nd hm hnd hne
@@ -488,7 +483,7 @@ theorem Inv.setDirty {p : Program} {s : St} (inv : Inv p s) (dirty' : Key → Ke
     hx.transfer (fun y n hy hn => ⟨n, hn, rfl, rfl, rfl, rfl, rfl, id, id⟩)
   have ng : ∀ x, NGood s x → NGood { s with dirty := dirty' } x := fun x hx =>
     hx.transfer (fun y n _ hn => ⟨n, hn, rfl, rfl⟩) (fun y n d o nd _ _ _ hnd => ⟨nd, hnd, rfl, rfl, fun _ => rfl⟩)
-  refine ⟨inv.kind, inv.pjFw, inv.pjKinds, inv.pjStat, inv.pjSeen, inv.pjCause, inv.pjBroken, inv.down,
+  refine ⟨inv.kind, inv.pjKinds, inv.pjStat, inv.pjSeen, inv.pjCause, inv.pjBroken, inv.down,
     inv.tfcDown, inv.nodup, inv.trace, inv.stamp, inv.seenSub,
     fun k n hn hv => sol k (inv.solid k n hn hv), ?_⟩
   intro x n hx y o hm hcl
